@@ -191,7 +191,9 @@ class IndexValidate(Contract):
             k = cur().choose([("ret", None), ("SchemaError", None)], "coerce_dtype")
             if k == 1:
                 raise PyExc(I.make_exc(SchemaError))
-            return SAny(name="coerced_index")
+            c = SAny(name="coerced_index")
+            cur().ghost["coerced_index"] = c
+            return c
 
         I.models[id(ComponentSchema.coerce_dtype)] = coerce
         # check_obj.index.to_series().reset_index(drop=True): the labels as a series (positional re-labelling)
@@ -221,6 +223,10 @@ class IndexValidate(Contract):
                "same_kind": type(result) is type(check_obj)}
         if inplace:
             out["inplace_returns_the_object"] = result is check_obj
+        if "coerced_index" in p.ghost:
+            # C03 / C10: the parsed object carries the COERCED index - whatever the old one looks like (pandas Index.equals ignores the
+            # dtype: 1 == 1.0), the values the schema's dtype check then sees must be the ones that are returned
+            out["the_coerced_index_is_the_index_of_the_result"] = getattr(result, "index_override", None) is p.ghost["coerced_index"]
         h = p.ghost.get("handed_to_array_validation")
         if h is not None:
             obj, sch, ckw = h
@@ -266,7 +272,23 @@ class IndexValidate(Contract):
                     obs[f"index [7,7,7,8], Index(unique=True), options {opts}"] = f"{got}, validating those rows alone gives {want}"
             return bad, obs or "sub-sampled index validation agrees with validating the selected rows"
 
-        return thunk
+        def coerced_index():
+            """Index(<numeric>, coerce=True) on an index of another numeric dtype with equal values: the result carries the coerced dtype"""
+            import warnings
+
+            import pandas as pd
+            import pandera as pa
+
+            warnings.simplefilter("ignore")
+            obs, bad = {}, False
+            for src, tgt in (("int64", "float64"), ("float64", "int64"), ("int32", "int64"), ("object", "int64")):
+                s = pd.Series([1.0, 2.0], index=pd.Index([1, 2], dtype=src))
+                out = pa.SeriesSchema(float, index=pa.Index(tgt, coerce=True)).validate(s)
+                obs[f"{src} -> {tgt}"] = str(out.index.dtype)
+                bad = bad or str(out.index.dtype) != tgt
+            return bad, obs
+
+        return coerced_index if "the_coerced_index" in (rec.get("oid") or "") else thunk
 
 
 class _IndexSeries:
